@@ -15,7 +15,26 @@ func readMessage(b *pageBuffer, d *decoder) (attributes int8, baseOffset, timest
 	}
 
 	baseOffset = md.readInt64()
-	md.remain = int(md.readInt32())
+	messageSize := int(md.readInt32())
+
+	if md.err != nil {
+		err = dontExpectEOF(md.err)
+		return
+	}
+
+	if messageSize < 0 {
+		err = Errorf("invalid negative message size: %d", messageSize)
+		return
+	}
+
+	if messageSize > d.remain {
+		// The message was truncated, or its size is corrupted.
+		d.discardAll()
+		err = io.ErrUnexpectedEOF
+		return
+	}
+
+	md.remain = messageSize
 
 	crc := uint32(md.readInt32())
 	md.setCRC(crc32.IEEETable)
